@@ -4,10 +4,12 @@ pub mod c03;
 pub mod c04;
 pub mod c05;
 pub mod c08;
+pub mod c11;
 pub mod c12;
 pub mod c13;
 pub mod c14;
 pub mod c16;
+pub mod c18;
 pub mod c20;
 
 use serde_json::{json, Value};
